@@ -20,7 +20,7 @@ func c02N(quick, thorough int) int {
 // (a)
 func HarnessC02_PacketChunks() {
 	vfLoopBound(40)
-	N := c02N(6, 12)
+	N := c02N(6, 8)
 	vfBound("body-bytes", N)
 	vfBound("chunks", 4)
 	L := vfInt("bodylen", 0, N)
@@ -94,21 +94,21 @@ func HarnessC02_TokDone()         { c02Diff([]byte{byte(TDS_DONE)}, c02N(10, 12)
 func HarnessC02_TokDoneProc()     { c02Diff([]byte{byte(TDS_DONEPROC)}, c02N(9, 11), nil) }
 func HarnessC02_TokDoneInProc()   { c02Diff([]byte{byte(TDS_DONEINPROC)}, c02N(9, 11), nil) }
 // (thorough only: fragmentation of EED is also exercised by the C03/C11 responses and by C07)
-func HarnessC02T_TokEED()         { c02Diff([]byte{byte(TDS_EED)}, c02N(18, 22), nil) }
-func HarnessC02_TokError()        { c02Diff([]byte{byte(TDS_ERROR)}, c02N(10, 16), nil) }
-func HarnessC02_TokLoginAck()     { c02Diff([]byte{byte(TDS_LOGINACK)}, c02N(10, 16), nil) }
+func HarnessC02T_TokEED()         { c02Diff([]byte{byte(TDS_EED)}, c02N(18, 20), nil) }
+func HarnessC02_TokError()        { c02Diff([]byte{byte(TDS_ERROR)}, c02N(10, 12), nil) }
+func HarnessC02_TokLoginAck()     { c02Diff([]byte{byte(TDS_LOGINACK)}, c02N(10, 12), nil) }
 func HarnessC02_TokMsg()          { c02Diff([]byte{byte(TDS_MSG)}, c02N(6, 8), nil) }
-func HarnessC02_TokParamFmt()     { c02Diff([]byte{byte(TDS_PARAMFMT)}, c02N(6, 12), nil) }
-func HarnessC02_TokParamFmt2()    { c02Diff([]byte{byte(TDS_PARAMFMT2)}, c02N(8, 14), nil) }
-func HarnessC02_TokRowFmt()       { c02Diff([]byte{byte(TDS_ROWFMT)}, c02N(7, 10), nil) }
-func HarnessC02_TokRowFmt2()      { c02Diff([]byte{byte(TDS_ROWFMT2)}, c02N(8, 16), nil) }
-func HarnessC02_TokCapability()   { c02Diff([]byte{byte(TDS_CAPABILITY)}, c02N(5, 8), nil) }
-func HarnessC02_TokEnvChange()    { c02Diff([]byte{byte(TDS_ENVCHANGE)}, c02N(5, 10), nil) }
-func HarnessC02_TokOrderBy()      { c02Diff([]byte{byte(TDS_ORDERBY)}, c02N(5, 8), &RowFmtPackage{}) }
-func HarnessC02_TokOrderBy2()     { c02Diff([]byte{byte(TDS_ORDERBY2)}, c02N(9, 12), &RowFmtPackage{}) }
+func HarnessC02_TokParamFmt()     { c02Diff([]byte{byte(TDS_PARAMFMT)}, c02N(6, 8), nil) }
+func HarnessC02_TokParamFmt2()    { c02Diff([]byte{byte(TDS_PARAMFMT2)}, c02N(8, 10), nil) }
+func HarnessC02_TokRowFmt()       { c02Diff([]byte{byte(TDS_ROWFMT)}, c02N(7, 9), nil) }
+func HarnessC02_TokRowFmt2()      { c02Diff([]byte{byte(TDS_ROWFMT2)}, c02N(8, 10), nil) }
+func HarnessC02_TokCapability()   { c02Diff([]byte{byte(TDS_CAPABILITY)}, c02N(5, 7), nil) }
+func HarnessC02_TokEnvChange()    { c02Diff([]byte{byte(TDS_ENVCHANGE)}, c02N(5, 7), nil) }
+func HarnessC02_TokOrderBy()      { c02Diff([]byte{byte(TDS_ORDERBY)}, c02N(5, 7), &RowFmtPackage{}) }
+func HarnessC02_TokOrderBy2()     { c02Diff([]byte{byte(TDS_ORDERBY2)}, c02N(9, 11), &RowFmtPackage{}) }
 func HarnessC02_TokReturnStatus() { c02Diff([]byte{byte(TDS_RETURNSTATUS)}, c02N(6, 8), nil) }
-func HarnessC02_TokDynamic()      { c02Diff([]byte{byte(TDS_DYNAMIC)}, c02N(7, 12), nil) }
-func HarnessC02_TokDynamic2()     { c02Diff([]byte{byte(TDS_DYNAMIC2)}, c02N(9, 14), nil) }
-func HarnessC02_TokCurInfo()      { c02Diff([]byte{byte(TDS_CURINFO)}, c02N(9, 12), nil) }
-func HarnessC02_TokCurInfo3()     { c02Diff([]byte{byte(TDS_CURINFO3)}, c02N(13, 16), nil) }
-func HarnessC02_TokUnknown()      { c02Diff([]byte{0x01}, c02N(5, 8), nil) }
+func HarnessC02_TokDynamic()      { c02Diff([]byte{byte(TDS_DYNAMIC)}, c02N(7, 9), nil) }
+func HarnessC02_TokDynamic2()     { c02Diff([]byte{byte(TDS_DYNAMIC2)}, c02N(9, 11), nil) }
+func HarnessC02_TokCurInfo()      { c02Diff([]byte{byte(TDS_CURINFO)}, c02N(9, 11), nil) }
+func HarnessC02_TokCurInfo3()     { c02Diff([]byte{byte(TDS_CURINFO3)}, c02N(13, 15), nil) }
+func HarnessC02_TokUnknown()      { c02Diff([]byte{0x01}, c02N(5, 7), nil) }
